@@ -69,6 +69,16 @@ pub fn expr_forms(ops: &[String], literals: bool) -> Vec<String> {
         v.push("1 << 100000000000".to_string());
         v.push("1 >> 100000000000".to_string());
         v.push(format!("1 << {P_BN254}"));
+        // negated literals at and beyond the field size, as operands and exponents
+        for big in [P_BN254.to_string(), format!("{P_BN254}0"), "0x10000000000000000".to_string(), "1".to_string()] {
+            v.push(format!("-{big}"));
+            v.push(format!("5 ** (-{big})"));
+            v.push(format!("1 << (-{big})"));
+            v.push(format!("7 % (-{big})"));
+            v.push(format!("7 \\ (-{big})"));
+            v.push(format!("~(-{big})"));
+            v.push(format!("(-{big}) >> 1"));
+        }
         v.push("0 ** 0".to_string());
         v.push("2 ** 100000000000".to_string());
     }
@@ -309,6 +319,47 @@ fn tpl(name: &str) -> String {
     format!("template {name}() {{\n    signal input in;\n    signal output out;\n    out <== in;\n}}\n")
 }
 
+/// Include path strings x library configurations (totality only).
+pub const INCLUDE_PATHS: [&str; 16] = [
+    "x.circom", "übersicht.circom", "é", "漢.circom", "", ".", "..", "./x.circom", "../a.circom", "x", "/nonexistent/abs.circom", "la/x.circom", " x.circom", "x.circom ", "é/x.circom", "x.circom/é",
+];
+pub const LIBRARY_CONFIGS: usize = 5;
+
+pub fn check_include_path(path_index: usize, lib: usize, dir: &Path, case: &Value) -> Vec<Violation> {
+    let _ = std::fs::remove_dir_all(dir);
+    std::fs::create_dir_all(dir.join("la")).expect("mkdir");
+    let inc = INCLUDE_PATHS[path_index % INCLUDE_PATHS.len()];
+    let head = "pragma circom 2.1.0;\n";
+    std::fs::write(dir.join("a.circom"), format!("{head}include \"{inc}\";\n{}", tpl("A"))).expect("write");
+    // The included file exists in the library directory when its name can be a file name.
+    let plain = inc.trim();
+    if !plain.is_empty() && !plain.contains('/') && plain != "." && plain != ".." {
+        let _ = std::fs::write(dir.join("la").join(plain), format!("{head}{}", tpl("X")));
+    }
+    let _ = std::fs::write(dir.join("la/x.circom"), format!("{head}{}", tpl("X")));
+    let mut args: Vec<String> = vec!["a.circom".into()];
+    match lib % LIBRARY_CONFIGS {
+        0 => {}
+        1 => args.extend(["-L".into(), "la".into()]),
+        2 => args.extend(["-L".into(), "la/x.circom".into()]),
+        3 => args.extend(["-L".into(), "nosuchdir".into()]),
+        _ => args.extend(["-L".into(), "la".into(), "-L".into(), "la/x.circom".into(), "-L".into(), ".".into()]),
+    }
+    let run = run_bin(&BinOpts { args, cwd: dir, hash_seed: Some(1), timeout: Duration::from_secs(20), sarif_file: None, mem_limit: Some(4 << 30) });
+    let ok = !run.timed_out && run.killed_by_signal.is_none() && !run.panicked() && matches!(run.exit, Some(0) | Some(1)) && run.summary.is_some();
+    if ok {
+        return Vec::new();
+    }
+    let class = if run.timed_out { "does-not-complete".to_string() } else { run.panic_signature().unwrap_or_else(|| format!("exit-{:?}", run.exit)) };
+    vec![Violation {
+        signature: format!("include-path/{class}"),
+        what: format!("include \"{inc}\" with library configuration {lib}: the binary does not end normally ({class})"),
+        case: case.clone(),
+        expected: "exit status 0 or 1 after the summary line".into(),
+        observed: format!("exit {:?} signal {:?} timed out {}\nstderr: {}", run.exit, run.killed_by_signal, run.timed_out, crate::infra::truncate(&run.stderr, 300)),
+    }]
+}
+
 pub fn check_scenario(name: &str, dir: &Path, case: &Value) -> Vec<Violation> {
     let _ = std::fs::remove_dir_all(dir);
     std::fs::create_dir_all(dir.join("la")).expect("mkdir");
@@ -409,7 +460,7 @@ pub fn run(run: &Run) {
          symbols over a 30-symbol alphabet in 3 embeddings, all 1- and 2-byte files; (iii) 13 \
          recursion-prone constructs at sizes 10..10^4 through the binary; (iv) corpus x 3 curves x 3 \
          levels x verbose x sarif through the binary; (v) 21 main-component forms x 4 public lists; \
-         (vi) 12 multi-file scenarios (include cycles, library cycles, diamonds, files named twice); (vii) ~1100 header forms (version pragmas with 1-4 components over a number alphabet reaching beyond 2^64 and 2^128, other pragmas, repeated pragmas); non-trivial = input accepted by the parser or \
+         (vi) 12 multi-file scenarios (include cycles, library cycles, diamonds, files named twice) and 16 include path strings (non-ASCII, empty, dots, absolute, blanks) x 5 library configurations; (vii) ~1100 header forms (version pragmas with 1-4 components over a number alphabet reaching beyond 2^64 and 2^128, other pragmas, repeated pragmas); non-trivial = input accepted by the parser or \
          rejected with a diagnostic (anything but a crash is an evaluated case), counted distinct",
     );
     let root = work_dir("c01");
@@ -575,6 +626,21 @@ pub fn run(run: &Run) {
         run.violations(vs);
         let _ = std::fs::remove_dir_all(&dir);
     });
+    // (vi, continued) include path strings x library configurations through the binary.
+    let mut inc_cases: Vec<(usize, usize)> = Vec::new();
+    for pi in 0..INCLUDE_PATHS.len() {
+        for lib in 0..LIBRARY_CONFIGS {
+            inc_cases.push((pi, lib));
+        }
+    }
+    par_each(&inc_cases, |i, (pi, lib)| {
+        let case = json!({"kind": "include-path", "path": pi, "lib": lib});
+        let dir = root.join(format!("inc{i}"));
+        run.eval(1);
+        run.nontrivial(1);
+        run.violations(check_include_path(*pi, *lib, &dir, &case));
+        let _ = std::fs::remove_dir_all(&dir);
+    });
     // (iii)
     let sizes: &[usize] = match run.tier {
         Tier::Quick => &[10, 100, 300],
@@ -689,6 +755,7 @@ pub fn replay(case: &Value) -> Vec<Violation> {
                 Err(p) => vec![panic_violation(p, case, &src)],
             }
         }
+        Some("include-path") => check_include_path(case["path"].as_u64().unwrap_or(0) as usize, case["lib"].as_u64().unwrap_or(0) as usize, &root, case),
         Some("scenario") => check_scenario(case["scenario"].as_str().unwrap_or("self-include"), &root, case),
         Some("main") => {
             let src = format!(
